@@ -27,6 +27,24 @@ class CallMixin:
         fn_src = ast.unparse(node.func)
         if fn_src.startswith(NOOP_MODULE_CALLS) or fn_src.startswith("self.logger."):
             return SV(None, T.NONE)
+        if isinstance(node.func, ast.Attribute) and isinstance(node.func.value, ast.Call) \
+                and isinstance(node.func.value.func, ast.Name) and node.func.value.func.id == "super" \
+                and not node.func.value.args:
+            # super().m(...): the next definition of m in the MRO of the class the current method belongs to
+            fr0 = next((f_ for f_ in reversed(self.frames) if "." in (f_.fn_name or "")), None)
+            if fr0 is None:
+                raise Unsupported(f"super() outside a method (line {line})")
+            cname = fr0.fn_name.split(".")[0].split("#")[0]
+            ci = self.w.repo.find_class(cname, fr0.module)
+            if ci is None:
+                raise Unsupported(f"super(): class {cname} not found (line {line})")
+            for cn in self.w.repo.mro_names(ci)[1:]:
+                c2 = self.w.repo.find_class(cn, ci.module)
+                if c2 is not None and node.func.attr in c2.methods:
+                    args, kwargs = self.eval_args(node)
+                    return self.call_function(f"{c2.module}.{c2.name}.{node.func.attr}", args, kwargs, node,
+                                              self_val=self.lookup("self", line))
+            raise Unsupported(f"super().{node.func.attr}: no base class of {cname} defines it (line {line})")
         if isinstance(node.func, ast.Attribute) and node.func.attr == "join" \
                 and isinstance(node.func.value, ast.Constant) and isinstance(node.func.value.value, str):
             # "sep".join(<iterable>): message text; its content is opaque and the argument is not evaluated
@@ -808,12 +826,15 @@ class CallMixin:
         fi = self.w.repo.function(fq)
         if self_val is not None and any(d.split(".")[-1] == "staticmethod" for d in fi.decorators):
             self_val = None  # obj.static_method(...): no receiver is passed
+        if any(d.split(".")[-1] == "classmethod" for d in fi.decorators) and fi.cls:
+            self_val = SV(self.w.type_const(fi.cls), T.TYPE)  # Cls.class_method(...): the class is the first argument
         if c is not None and not c.inline:
             bound = self.bind_params(fi.node, args, kwargs, fi.module, self_val)
             return self.apply_contract(c, fi, bound, line)
         if (c is not None and c.inline) or self.specs.may_inline(fq):
             return self.inline_call(fi, args, kwargs, line, self_val)
-        if c is None and not fi.is_async and self._small_helper(fi):
+        if c is None and self._small_helper(fi) and (not fi.is_async or len(list(ast.walk(fi.node))) < 60):
+            # (small async forwarders - `await self._decorated.m(x)` - are inlined as well: an await is a call here)
             # a helper without a contract (e.g. one a refactoring extracted): its body is executed in place
             return self.inline_call(fi, args, kwargs, line, self_val)
         raise Unsupported(f"call to {fq} which has no contract and is not marked inline (line {line})")
@@ -1356,6 +1377,16 @@ class CallMixin:
         spec = self.specs.opaque_method(recv.ty.name, name)
         if spec is None:
             raise Unsupported(f"call of undeclared opaque method {recv.ty.name}.{name} (line {line})")
+        if spec.get("log"):
+            # an effectful call on a collaborator: recorded in the path's call log (ghost state the contract can
+            # talk about: calls(obj, "m"), call_kw(obj, "m", k, "name"), call_pos(...), call_seq(...))
+            if self.frames and self.frames[0].loop_ctx:
+                raise Unsupported(f"logged call {recv.ty.name}.{name} inside a loop (line {line})")
+            log = self.st.__dict__.setdefault("call_log", [])
+            log.append({"recv": recv.term, "ty": recv.ty.name, "method": name,
+                        "args": [a if isinstance(a, SV) else None for a in args],
+                        "kwargs": {k_: (v_ if isinstance(v_, SV) else None) for k_, v_ in kwargs.items()},
+                        "line": line})
         return self.apply_opaque(spec, recv, name, args, kwargs, line)
 
     def apply_opaque(self, spec, recv, name, args, kwargs, line):
